@@ -81,13 +81,14 @@ Proof. destruct a; cbn; intros H; try discriminate. apply String.eqb_eq in H. su
 Lemma item_eqb_eq a b : item_eqb a b = true -> a = b.
 Proof.
   destruct a, b; cbn; intros H; try discriminate;
+    try (apply andb_true_iff in H; destruct H as [H H2]; apply Z.eqb_eq in H2);
     first [apply String.eqb_eq in H | apply Z.eqb_eq in H]; subst; reflexivity.
 Qed.
 
 Lemma starts_swap_ok a : starts_swap a = true ->
   (exists o k, a = Op o /\ index_of o swaps 0 = Some k) \/ (forall o, a = Op o -> index_of o swaps 0 = None).
 Proof.
-  intros _. destruct a as [o| | |]; try (right; intros o' E; discriminate E).
+  intros _. destruct a as [o| | | | | | |]; try (right; intros o' E; discriminate E).
   destruct (index_of o swaps 0) as [k|] eqn:E.
   - left. exists o, k. auto.
   - right. intros o' E'. inversion E'; subst. exact E.
@@ -138,7 +139,7 @@ Proof.
   assert (R1: refines (rev pre ++ suf0) (rev pre ++ s1) /\ swaps_real s1).
   { unfold s1. destruct (starts_swap a && item_eqb a b) eqn:P4.
     - apply andb_true_iff in P4. destruct P4 as [Pa Pb]. apply item_eqb_eq in Pb. subst b.
-      destruct a as [o| | |]; try discriminate Pa. cbn in Pa.
+      destruct a as [o| | | | | | |]; try discriminate Pa. cbn in Pa.
       destruct (SR o ltac:(left; reflexivity) Pa) as [k Ik]. split.
       + apply (refines_window (rev pre) [Op o; Op o] [] (c :: rest)). eapply pat_swap_swap; eauto.
       + intros o' I. apply SR. right; right; exact I.
@@ -153,7 +154,7 @@ Proof.
   { unfold s2r in ES2. destruct (is_op a1 "SWAP1") eqn:Q.
     - destruct tl1 as [|b1 tl]; [discriminate|]. inversion ES2; subst s2. clear ES2.
       destruct (is_comm b1) eqn:C.
-      + apply is_op_eq in Q. subst a1. destruct b1 as [o| | |]; try discriminate C. split.
+      + apply is_op_eq in Q. subst a1. destruct b1 as [o| | | | | | |]; try discriminate C. split.
         * apply (refines_window (rev pre) [Op "SWAP1"; Op o] [Op o] tl). apply pat_swap1_comm; exact C.
         * intros o' I. apply SR1. right; exact I.
       + split; [apply refines_refl | exact SR1].
